@@ -411,7 +411,7 @@ def sections_report(m, st, opts):
     key = ','.join(sorted(opts))
     r['txt.indep'] = m.frq_independent_as_mininec()
     if st.computed:
-        o = set(opts)
+        o = opts if isinstance(opts, set) else set(opts)
         r['txt.dep[%s]' % key] = m.frq_dependent_as_mininec(o)
         r['txt.full[%s]' % key] = m.as_mininec(o)
     return r
@@ -505,6 +505,7 @@ class ApiRuntime:
         self.pv = poison_value(env)
         self.nfreq_computed = set()
         self.order = []          # sequence of FAR/NEAR kinds executed
+        self.shared_opts = set(['far-field', 'near-field', 'far-field-absolute'])   # caller-owned, reused
         self.held = []           # result objects the caller kept, with by-value snapshots
         self.angles = {}         # caller-owned Angle objects reused between requests
         self.nearargs = {}       # caller-owned near-field argument containers
@@ -587,6 +588,22 @@ class ApiRuntime:
         fault, op = op_fault(op)
         kind = op[0]
         m, st, t = self.m, self.st, self.task
+        if kind == 'REPORT_EARLY':
+            # a report asked for at a moment when not everything it prints has
+            # been computed for the current frequency (default options, or a
+            # caller-owned option set that is used again later): it raises or
+            # prints stale sections - caller error, not judged - and must not
+            # change any later report
+            self.poison()
+            for call in (lambda: m.as_mininec(), lambda: m.as_mininec(self.shared_opts),
+                         lambda: m.frq_dependent_as_mininec(self.shared_opts),
+                         lambda: m.fields_as_mininec(self.shared_opts)):
+                try:
+                    call()
+                    S.fired('early_report_rendered')
+                except Exception:
+                    S.fired('early_report_raised')
+            return True, None, {'premature': True}
         if kind in ('NEAR_BAD', 'FAR_BAD'):
             # a malformed request: raises somewhere inside the program.  Its
             # own outcome is not judged; the caller catches the exception and
@@ -685,7 +702,14 @@ class ApiRuntime:
                         (o.startswith('far') and st.far is not None) or
                         (o == 'near-field' and st.near is not None)]
                 info['opts'] = opts
-                sec = sections_report(m, st, opts)
+                if set(opts) == self.shared_opts:
+                    # hand in the caller's long-lived set object itself
+                    sec = sections_report(m, st, self.shared_opts)
+                    S.fired('caller_option_set_reused')
+                else:
+                    sec = sections_report(m, st, opts)
+                if self.shared_opts != set(['far-field', 'near-field', 'far-field-absolute']):
+                    info['args_damaged'] = 'report option set'
                 sec.update(sections_num(m, st, loads=False))
                 return True, sec, info
             elif kind == 'OBS_CMDLINE':
@@ -948,6 +972,9 @@ def run_history(plan, start=0, disk_files=None, positions=None, apistates=None):
                 rt.dead_reported = True
             if 'opts' in info:
                 rec['opts'] = info['opts']
+            if info.get('args_damaged') and not getattr(rt, 'opts_damage_reported', False):
+                rt.opts_damage_reported = True
+                rec.setdefault('held_changed', []).append(('argument ' + info['args_damaged'], rt.point()))
             if rt.m is not None:
                 after = abstract_state(rt.m, rt.st)
                 states.add(after)
